@@ -20,6 +20,7 @@ driver ops of component `xpath` (C08).  The driver is stateless, so every evalua
   digits of `exp->repeat[i]`)
 * `xpast <expr-hex>`   -> `ok <hex of the prefix form of the parsed tree>` | `err Lex` | `err Parse`        (model only)
 * `xprender <ast-hex>` -> `ok <hex of the canonical text>` | `err NotWf` (no canonical text: `Canon.wf`)        (model only)
+* `xprendert <ast-hex>` -> `ok <hex of the tight text Render.renderT> <1 if the single-blank fallback was taken, else 0>` | `err NotWf`
 -/
 namespace LyModel.XPath.Drv
 open LyModel LyModel.XPath
@@ -356,6 +357,14 @@ def handle (op : String) (args : List String) : String :=
   | "xprender", [h] =>
     match (Hex.dec h).bind parseAst with
     | some e => if Canon.wf e then "ok " ++ Hex.enc (Render.render e) else "err NotWf"
+    | none => "err BadAst"
+  | "xprendert", [h] =>
+    match (Hex.dec h).bind parseAst with
+    | some e =>
+      if Canon.wf e then
+        "ok " ++ Hex.enc (Render.renderT e) ++
+          (if Render.spacingB (Render.atoks e) (Render.tightBs (Render.atoks e)) [] then " 0" else " 1")
+      else "err NotWf"
     | none => "err BadAst"
   | _, _ => "err BadOp"
 
